@@ -40,6 +40,9 @@ def scenarios(ctx, rend):
         ("mixed-print", "fmt = import(\"fmt\")\nprintln(\"one\")\nfmt.Println(\"two\")\nprintln(\"three\")\nfmt.Printf(\"%d\\n\", 4)\nprint(\"five\\n\")"),
         ("mixed-print-fail", "fmt = import(\"fmt\")\nprintln(\"one\")\nfmt.Println(\"two\")\nprintln(\"three\")\nzz"),
         ("os-stdout-write", "os = import(\"os\")\nprintln(\"a\")\nos.Stdout.WriteString(\"b\\n\")\nprintln(\"c\")"),
+        # the error text is data, not a format: per cent signs in it change nothing about "one diagnostic line"
+        ("throw-percent-end", "println(1)\nthrow \"done 100%\""), ("throw-percent-verbs", "throw \"%s %d %v %\""), ("throw-percent-mid", "println(1)\nthrow \"50% done\""),
+        ("parse-error-percent", "x = \"%d\" +"), ("undefined-percent", "println(1)\nm = {\"%d%\": 1}\nm[\"%d%\"].zz.y()"),
         ("div-zero", "println(1 % 0)"), ("deep-error", "func f() { return g() }\nfunc g() { throw \"deep\" }\nprintln(0)\nf()"),
     ]
     scripts += [("sp-" + n, s) for n, s in special]
